@@ -187,11 +187,25 @@ def work(item):
                     rec['els'].append(e)
                 out['cases'].append(rec)
     else:
+      import random
+      trng = random.Random(label)
+      zs_all = list(b['elements'])
+      subsets = [None]
+      if len(zs_all) > 2:
+          # He without H, one element, a random pair: the rule for H and He is per element, not per basis
+          subsets += [[z for z in zs_all if z != '1'][:3], [trng.choice(zs_all)], trng.sample(zs_all, 2)]
+          if '2' in zs_all:
+              subsets.append(['2', trng.choice([z for z in zs_all if z not in ('1', '2')])])
+      whole = b
+      for sub in subsets:
+        b = whole if sub is None else dict(whole, elements={z: whole['elements'][z] for z in zs_all if z in sub})
+        if not any('electron_shells' in el for el in b['elements'].values()):
+            continue
         gen = manip.make_general(b)
         bmax = max(max(max(sh['angular_momentum']) for sh in el['electron_shells']) for el in gen['elements'].values() if 'electron_shells' in el)
         prev = None
         for off, month in enumerate(MONTHS):
-            rec = dict(kind='truhlar', month=month, offset=off, els=[])
+            rec = dict(kind='truhlar', month=month, offset=off, els=[], subset=sub)
             try:
                 r = manip.truhlar_calendarize(b, month)
             except Exception as e:
@@ -232,6 +246,16 @@ def run(ctx):
     items += [('%s/%s' % p, p, 'truhlar') for p in sample_pairs(ctx, ctx.n(14, 10 ** 6), augs)]
     for i in range(ctx.n(120, 2000)):
         g = genbasis.gen_basis(ctx.rng, kinds=['general', 'plain', 'pople', 'shared', 'ecp'])
+        if i % 4 == 1:
+            # a hole in the momenta of an element (p, d without s; s, d without p - CRENBL Z >= 95 is of that kind): the shells of one
+            # momentum below the highest are taken out
+            for el in g['elements'].values():
+                shs = el.get('electron_shells', [])
+                ls = sorted(set(l for sh in shs for l in sh['angular_momentum']))
+                single = [l for l in ls[:-1] if all(len(sh['angular_momentum']) == 1 for sh in shs if l in sh['angular_momentum'])]
+                if len(ls) >= 2 and single:
+                    drop = ctx.rng.choice(single)
+                    el['electron_shells'] = [sh for sh in shs if sh['angular_momentum'] != [drop]]
         items.append(('gen%d' % i, g, 'aug'))
         if i % 3 == 0:
             items.append(('gent%d' % i, genbasis.gen_basis(ctx.rng, kinds=['general', 'plain', 'ecp']), 'truhlar'))
@@ -242,7 +266,7 @@ def run(ctx):
                 R.count('skip:' + out['error'])
                 continue
             for rec in out['cases']:
-                w0 = dict(basis=out['label'], **{k: rec[k] for k in ('n', 'steep', 'month') if k in rec})
+                w0 = dict(basis=out['label'], **{k: rec[k] for k in ('n', 'steep', 'month', 'subset') if k in rec})
                 if 'raised' in rec:
                     R.ev()
                     if rec['kind'] == 'truhlar':
